@@ -15,6 +15,7 @@ structure Scene (s : State) (ns name : String) (pod : Pod) : Prop where
   truth : Tbl.get s.pods (ns, name) = some pod
   lister : Tbl.get s.vPods (ns, name) = some pod
   wants : pod.wants = true
+  pending : pod.node = ""
 
 /-- "an identity without requested ranges holds at most one address" (else `ipInfos[0]` / `ipInfos[:1]` are arbitrary) -/
 def AtMostOneWithoutRanges (s : State) (pod : Pod) : Prop :=
